@@ -1475,7 +1475,14 @@ pub fn world_b_idle(property: &str, scenario: &str, seed: u64, run: u64, thoroug
     cfg.keepalive = true;
     cfg.keepalive_interval_ms = interval;
     cfg.active_timeout_ms = timeout;
-    let cc = cfg.clone();
+    let mut cc = cfg.clone();
+    // in two runs of five only one side keeps the connection alive: the other side's keepalive is
+    // off (it still answers every keepalive frame, which is what the first side listens for)
+    match r.below(5) {
+        0 => cc.keepalive = false,
+        1 => cfg.keepalive = false,
+        _ => (),
+    }
     let topo = topology(&mut plan, &mut r, 1, 0, cfg, 64, 32, move |_, _| cc.clone());
     for e in plan.endpoints.iter_mut() {
         e.clock_ppm = 1_000_000;
